@@ -521,9 +521,9 @@ theorem nestPhase_step {R : Addr → Prop} (path : List String) :
 
 theorem looseOrEmpty_step {R : Addr → Prop} :
     ∀ (loose : List (Option Addr)) (h : Heap), Good h R →
-      (∀ a, some a ∈ loose → R a ∧ a < h.next) →
+      (∀ a, some a ∈ loose → a < h.next) →
       Step R h (looseOrEmpty h loose).2 ∧
-      AddrsIn R (looseOrEmpty h loose).2.next (looseOrEmpty h loose).1 := by
+      ∀ a ∈ (looseOrEmpty h loose).1, a < (looseOrEmpty h loose).2.next := by
   intro loose
   induction loose with
   | nil => intro h g _; exact ⟨Step.refl g, fun a ha => by simp [looseOrEmpty] at ha⟩
@@ -537,25 +537,54 @@ theorem looseOrEmpty_step {R : Addr → Prop} :
       simp only [looseOrEmpty, List.mem_cons] at hb
       rcases hb with hb | hb
       · subst hb
-        have := hl b (by simp)
-        exact ⟨this.1, Nat.lt_of_lt_of_le this.2 s1.mono⟩
+        exact Nat.lt_of_lt_of_le (hl b (by simp)) s1.mono
       · exact hin b hb
     | none =>
-      obtain ⟨s0, hRe, hlte⟩ := step_alloc g (o := []) ObjIn.nil
-      obtain ⟨s1, hin⟩ := ih (h.alloc []).2 s0.good (fun b hb => by
-        have := hl b (List.mem_cons_of_mem _ hb)
-        exact ⟨this.1, Nat.lt_of_lt_of_le this.2 s0.mono⟩)
+      obtain ⟨s0, _, hlte⟩ := step_alloc g (o := []) ObjIn.nil
+      obtain ⟨s1, hin⟩ := ih (h.alloc []).2 s0.good (fun b hb =>
+        Nat.lt_of_lt_of_le (hl b (List.mem_cons_of_mem _ hb)) s0.mono)
       refine ⟨s0.trans s1, ?_⟩
       intro b hb
       simp only [looseOrEmpty, List.mem_cons] at hb
       rcases hb with hb | hb
-      · subst hb; exact ⟨hRe, Nat.lt_of_lt_of_le hlte s1.mono⟩
+      · subst hb; exact Nat.lt_of_lt_of_le hlte s1.mono
       · exact hin b hb
+
+/-- each loose part is copied (read only) and the copy merged into the new `merge_x` -/
+theorem copyMergePhase_step {R : Addr → Prop} (fuel : Nat) :
+    ∀ (mxs ls : List Addr) (h h' : Heap), Good h R → (∀ m ∈ mxs, R m) →
+      (∀ l ∈ ls, l < h.next) → copyMergePhase fuel h mxs ls = some h' → Step R h h' := by
+  intro mxs
+  induction mxs with
+  | nil => intro ls h h' g _ _ hrun; simp [copyMergePhase] at hrun; subst hrun; exact Step.refl g
+  | cons mx mxs ih =>
+    intro ls h h' g hmx hls hrun
+    cases ls with
+    | nil => simp [copyMergePhase] at hrun; subst hrun; exact Step.refl g
+    | cons l ls =>
+      unfold copyMergePhase at hrun
+      cases hc : copyH fuel h (.ref l) with
+      | none => simp [hc] at hrun
+      | some r =>
+        obtain ⟨cv, h1⟩ := r
+        cases cv with
+        | atom s => simp [hc] at hrun
+        | ref c =>
+          simp only [hc] at hrun
+          obtain ⟨s1, hcin⟩ := copyH_step fuel h (.ref l) (.ref c) h1 g (hls l (by simp)) hc
+          cases hm : mergeH fuel h1 mx c with
+          | none => simp [hm] at hrun
+          | some h2 =>
+            simp only [hm] at hrun
+            have s2 := mergeH_step fuel h1 mx c h2 s1.good (hmx mx (by simp)) hcin.1 hm
+            have s12 := s1.trans s2
+            exact s12.trans (ih ls h2 h' s2.good (fun a ha => hmx a (List.mem_cons_of_mem _ ha))
+              (fun a ha => Nat.lt_of_lt_of_le (hls a (List.mem_cons_of_mem _ ha)) s12.mono) hrun)
 
 theorem mergeCompCore_step {R : Addr → Prop} (fuel : Nat) (h h' : Heap) (self : HComp)
     (ol : List Addr) (loose : List (Option Addr)) (path : List String)
     (g : Good h R) (hself : ∀ s ∈ self, R s) (hol : ∀ a ∈ ol, a < h.next)
-    (hloose : ∀ a, some a ∈ loose → R a ∧ a < h.next)
+    (hloose : ∀ a, some a ∈ loose → a < h.next)
     (hrun : mergeCompCore fuel h self ol loose path = some h') : Step R h h' := by
   unfold mergeCompCore at hrun
   obtain ⟨sl, hlin⟩ := looseOrEmpty_step loose h g hloose
@@ -569,12 +598,12 @@ theorem mergeCompCore_step {R : Addr → Prop} (fuel : Nat) (h h' : Heap) (self 
     simp only [hc] at hrun
     have s1 := copyPhase_step fuel mx.1 ol mx.2 h1 sm.good hmin
       (fun o ho' => Nat.lt_of_lt_of_le (hol o ho') (Nat.le_trans sl.mono sm.mono)) hc
-    cases hm : mergePhase fuel h1 mx.1 l.1 with
+    cases hm : copyMergePhase fuel h1 mx.1 l.1 with
     | none => simp [hm] at hrun
     | some h2 =>
       simp only [hm] at hrun
-      have s2 := mergePhase_step fuel mx.1 l.1 h1 h2 s1.good (fun a ha => (hmin a ha).1)
-        (fun a ha => ((hlin a ha).1)) hm
+      have s2 := copyMergePhase_step fuel mx.1 l.1 h1 h2 s1.good (fun a ha => (hmin a ha).1)
+        (fun a ha => Nat.lt_of_lt_of_le (hlin a ha) (Nat.le_trans sm.mono s1.mono)) hm
       cases hn : nestPhase path h2 mx.1 with
       | none => simp [hn] at hrun
       | some r =>
@@ -586,13 +615,14 @@ theorem mergeCompCore_step {R : Addr → Prop} (fuel : Nat) (h h' : Heap) (self 
         exact ((((sl.trans sm).trans s1).trans s2).trans s3).trans s4
 
 /-- **`Composite.merge` respects the region of its target**: with the target's part dictionaries
-and the loose parts in the region (the merged-in composite anywhere, merely allocated), every
-object outside the region is left as it was and the region stays closed. -/
+in the region (the merged-in composite and the loose parts anywhere, merely allocated — both are
+only read, through `deep_copy_internal`), every object outside the region is left as it was and
+the region stays closed. -/
 theorem mergeCompH_step {R : Addr → Prop} (fuel : Nat) (h h' : Heap) (self : HComp)
     (other : Option HComp) (loose : List (Option Addr)) (path : List String)
     (g : Good h R) (hself : ∀ s ∈ self, R s)
     (hother : ∀ o, other = some o → ∀ a ∈ o, a < h.next)
-    (hloose : ∀ a, some a ∈ loose → R a ∧ a < h.next)
+    (hloose : ∀ a, some a ∈ loose → a < h.next)
     (hrun : mergeCompH fuel h self other loose path = some h') : Step R h h' := by
   unfold mergeCompH at hrun
   cases other with
@@ -602,7 +632,7 @@ theorem mergeCompH_step {R : Addr → Prop} (fuel : Nat) (h h' : Heap) (self : H
     simp only at hrun
     obtain ⟨s0, hin, _⟩ := allocEmpties_step self.length h g
     have := mergeCompCore_step fuel _ h' self _ loose path s0.good hself (fun a ha => (hin a ha).2)
-      (fun a ha => ⟨(hloose a ha).1, Nat.lt_of_lt_of_le (hloose a ha).2 s0.mono⟩) hrun
+      (fun a ha => Nat.lt_of_lt_of_le (hloose a ha) s0.mono) hrun
     exact s0.trans this
 
 /-! ### reachability -/
@@ -687,37 +717,80 @@ theorem reifyGo_step {R : Addr → Prop} (leaf : Val → String) :
     · exact hrest k' b hb
 end
 
-theorem reifyLoose_step {R : Addr → Prop} (leaf : Val → String) :
-    ∀ (loose : List (Option Val)) (h : Heap), Good h R →
-      Step R h (reifyLoose leaf h loose).2 ∧
-      ∀ a, some a ∈ (reifyLoose leaf h loose).1 → R a ∧ a < (reifyLoose leaf h loose).2.next := by
+theorem resolveLoose_step {R : Addr → Prop} (leaf : Val → String) (pool : List HComp) :
+    ∀ (loose : List LooseSrc) (h : Heap) (l : List (Option Addr)) (h' : Heap), Good h R →
+      (∀ c ∈ pool, ∀ r ∈ c, r < h.next) → resolveLoose leaf pool h loose = some (l, h') →
+      Step R h h' ∧ ∀ a, some a ∈ l → a < h'.next := by
   intro loose
   induction loose with
-  | nil => intro h g; exact ⟨Step.refl g, fun a ha => by simp [reifyLoose] at ha⟩
+  | nil =>
+    intro h l h' g _ hrun
+    simp [resolveLoose] at hrun; obtain ⟨rfl, rfl⟩ := hrun
+    exact ⟨Step.refl g, fun a ha => by cases ha⟩
   | cons x rest ih =>
-    intro h g
+    intro h l h' g hpool hrun
     cases x with
-    | none =>
-      obtain ⟨s1, hin⟩ := ih h g
-      refine ⟨s1, ?_⟩
-      intro a ha
-      simp only [reifyLoose, List.mem_cons] at ha
-      rcases ha with ha | ha
-      · cases ha
-      · exact hin a ha
-    | some v =>
+    | absent =>
+      simp only [resolveLoose] at hrun
+      cases hr : resolveLoose leaf pool h rest with
+      | none => simp [hr] at hrun
+      | some r =>
+        obtain ⟨rs, h2⟩ := r
+        simp only [hr, Option.some.injEq, Prod.mk.injEq] at hrun
+        obtain ⟨rfl, rfl⟩ := hrun
+        obtain ⟨s1, hin⟩ := ih h rs h2 g hpool hr
+        refine ⟨s1, ?_⟩
+        intro a ha
+        simp only [List.mem_cons] at ha
+        rcases ha with ha | ha
+        · cases ha
+        · exact hin a ha
+    | fresh v =>
+      simp only [resolveLoose] at hrun
       obtain ⟨s1, hv⟩ := reifyH_step (R := R) leaf v h g
-      obtain ⟨s2, hin⟩ := ih (reifyH leaf h v).2 s1.good
-      refine ⟨s1.trans s2, ?_⟩
-      intro a ha
-      simp only [reifyLoose, List.mem_cons] at ha
-      rcases ha with ha | ha
-      · cases hr : (reifyH leaf h v).1 with
-        | atom s => simp [hr] at ha
-        | ref b =>
-          simp [hr] at ha; subst ha
-          rw [hr] at hv
-          exact ⟨hv.1, Nat.lt_of_lt_of_le hv.2 s2.mono⟩
-      · exact hin a ha
+      cases hr : resolveLoose leaf pool (reifyH leaf h v).2 rest with
+      | none => simp [hr] at hrun
+      | some r =>
+        obtain ⟨rs, h2⟩ := r
+        simp only [hr, Option.some.injEq, Prod.mk.injEq] at hrun
+        obtain ⟨rfl, rfl⟩ := hrun
+        obtain ⟨s2, hin⟩ := ih _ rs h2 s1.good
+          (fun c hc r hr' => Nat.lt_of_lt_of_le (hpool c hc r hr') s1.mono) hr
+        refine ⟨s1.trans s2, ?_⟩
+        intro a ha
+        simp only [List.mem_cons] at ha
+        rcases ha with ha | ha
+        · cases hrv : (reifyH leaf h v).1 with
+          | atom s => simp [hrv] at ha
+          | ref b =>
+            simp [hrv] at ha; subst ha
+            rw [hrv] at hv
+            exact Nat.lt_of_lt_of_le hv.2 s2.mono
+        · exact hin a ha
+    | part ci pi =>
+      simp only [resolveLoose] at hrun
+      cases hc : pool[ci]? with
+      | none => simp [hc] at hrun
+      | some c =>
+        simp only [hc] at hrun
+        cases ha' : c[pi]? with
+        | none => simp [ha'] at hrun
+        | some a0 =>
+          simp only [ha'] at hrun
+          cases hr : resolveLoose leaf pool h rest with
+          | none => simp [hr] at hrun
+          | some r =>
+            obtain ⟨rs, h2⟩ := r
+            simp only [hr, Option.some.injEq, Prod.mk.injEq] at hrun
+            obtain ⟨rfl, rfl⟩ := hrun
+            obtain ⟨s1, hin⟩ := ih h rs h2 g hpool hr
+            refine ⟨s1, ?_⟩
+            intro a ha
+            simp only [List.mem_cons] at ha
+            rcases ha with ha | ha
+            · injection ha with ha; subst ha
+              exact Nat.lt_of_lt_of_le
+                (hpool c (List.mem_of_getElem? hc) a (List.mem_of_getElem? ha')) s1.mono
+            · exact hin a ha
 
 end Viv
